@@ -43,6 +43,8 @@ func main() {
 		cmdRerun(os.Args[2:])
 	case "fuzz":
 		cmdFuzz(os.Args[2:])
+	case "interrupt":
+		cmdInterrupt(os.Args[2:])
 	default:
 		die("unknown sub-command %s", os.Args[1])
 	}
